@@ -51,6 +51,8 @@ def run(ctx):
     ctx.rule("R3", "stores into caller settings dictionaries are configuration-derived, never input-derived")
     ctx.rule("R4", "parameter-dictionary persistence: optional keys cannot be persisted, sibling preparers overwrite the same keys, mutable defaults written only by packing")
     ctx.rule("R5", "process-global setters are inventoried")
+    ctx.rule("R6", "reused driver objects: per-run derived state is recomputed on every run, never memoised behind an 'already set' test")
+    _r6(ctx, repo)
 
     # ------------------------------------------------------------------ R1
     fn_classes = []
@@ -140,8 +142,31 @@ def run(ctx):
                 if gname:
                     n_state += 1
                     ok = gname in KNOWN_CACHES and KNOWN_CACHES[gname] == m.rel
-                    ctx.check(ok, "R2", m, n, q, n, f"write to module state `{gname}` is one of the inventoried caches",
-                              f"`{short(n, 70)}` mutates module-level `{gname}` inside {q}: results can depend on what ran earlier in the process")
+                    why = "not an inventoried cache"
+                    if not ok and isinstance(n, ast.Assign) and isinstance(n.targets[0], ast.Subscript) and isinstance(n.targets[0].slice, ast.Name):
+                        # an un-inventoried memo table is acceptable only with a complete key: every input of the stored value is in the key
+                        kname = n.targets[0].slice.id
+                        kdefs = [st for st in ast.walk(f) if isinstance(st, ast.Assign) and norm(st.targets[0]) == kname]
+                        if kdefs:
+                            def data_names(e):
+                                called = {c.func.id for c in calls_in(e) if isinstance(c.func, ast.Name)}
+                                return {x for x in names_in(e) if x not in called and x not in ("torch", "np", "math", "id", "tuple", "frozenset", "sorted")}
+                            kin = data_names(kdefs[0].value)
+                            # expand one level of local definitions in the key
+                            for st in ast.walk(f):
+                                if isinstance(st, ast.Assign) and isinstance(st.targets[0], ast.Name) and st.targets[0].id in kin:
+                                    pass
+                            vin = data_names(n.value) - {kname}
+                            # names in the value that are themselves pure functions of key names are fine
+                            derived = set()
+                            for st in ast.walk(f):
+                                if isinstance(st, ast.Assign) and isinstance(st.targets[0], ast.Name) and data_names(st.value) <= kin | derived and st.targets[0].id != kname:
+                                    derived.add(st.targets[0].id)
+                            missing = vin - kin - derived
+                            ok = not missing
+                            why = f"stored value depends on {sorted(missing)} which is not part of the key `{norm(kdefs[0].value)}`"
+                    ctx.check(ok, "R2", m, n, q, n, f"write to module state `{gname}` is an inventoried cache or a memo table with a complete key",
+                              f"`{short(n, 70)}` mutates module-level `{gname}` inside {q} ({why}): results can depend on what ran earlier in the process")
     if n_state < 3:
         raise AnalysisError("module-level caches not found")
     fk = repo.mod("seqm/seqm_functions/fock.py")
@@ -352,3 +377,73 @@ def _all_written(fn_classes):
                     if isinstance(t, ast.Attribute) and isinstance(t.value, ast.Name) and t.value.id in names:
                         out.add(t.attr)
     return out
+
+
+PER_RUN = {"initialize", "initialize_velocity", "run", "set_dof", "forward", "one_step", "_do_integrator_step", "_setup_states", "_init_coeffs",
+           "_ensure_active_states", "_sync_excited_state_output_flags"}
+MEMO_OK = {
+    ("seqm/NonadiabaticDynamics.py", "NonadiabaticDynamicsBase._ensure_active_states", "_active_states"): "continuation/resume mechanism: run_from_checkpoint presets the active states",
+    ("seqm/NonadiabaticDynamics.py", "NonadiabaticDynamicsBase._init_coeffs", "_amp_phase"): "continuation/resume mechanism: amplitudes preset by run_from_checkpoint",
+    ("seqm/NonadiabaticDynamics.py", "NonadiabaticDynamicsBase._do_integrator_step", "_mos_prev"): "scratch buffer allocation; contents are copied every step",
+    ("seqm/NonadiabaticDynamics.py", "NonadiabaticDynamicsBase._do_integrator_step", "_coords_prev"): "scratch buffer allocation; contents are copied every step",
+}
+
+
+def _presence_attr(a):
+    """self.X if atom `a` tests whether instance attribute X is set (is None / is not None / hasattr / getattr(...,None) / truthiness)."""
+    t = norm(a).replace('"', "'")
+    m = re.match(r"^self\.(\w+) is (not )?None$", t)
+    if m:
+        return m.group(1)
+    m = re.match(r"^(not )?hasattr\(self, '(\w+)'\)$", t)
+    if m:
+        return m.group(2)
+    m = re.match(r"^getattr\(self, '(\w+)', None\)( is (not )?None)?$", t)
+    if m:
+        return m.group(1)
+    return None
+
+
+def _r6(ctx, repo):
+    n = 0
+    for rel in ("seqm/MolecularDynamics.py", "seqm/NonadiabaticDynamics.py", "seqm/basics.py", "seqm/ElectronicStructure.py", "seqm/dynamics/xlbomd.py"):
+        m = repo.mod(rel)
+        for cname, c in m.classes.items():
+            # configuration attributes: assigned in some __init__ of the hierarchy and nowhere else
+            init_set, other_set = set(), set()
+            for mm, cc in repo.mro(m, c):
+                for fn in [s for s in cc.body if isinstance(s, ast.FunctionDef)]:
+                    for st in ast.walk(fn):
+                        if isinstance(st, (ast.Assign, ast.AugAssign, ast.AnnAssign)):
+                            for t in (st.targets if isinstance(st, ast.Assign) else [st.target]):
+                                for x in ast.walk(t):
+                                    if isinstance(x, ast.Attribute) and norm(x.value) == "self" and isinstance(x.ctx, ast.Store):
+                                        (init_set if fn.name == "__init__" else other_set).add(x.attr)
+            derived = other_set
+            for fn in [s for s in c.body if isinstance(s, ast.FunctionDef) and s.name in PER_RUN]:
+                q = f"{cname}.{fn.name}"
+                for st in ast.walk(fn):
+                    is_state = False
+                    what = None
+                    if isinstance(st, ast.Assign):
+                        for t in st.targets:
+                            for x in ast.walk(t):
+                                if isinstance(x, ast.Attribute) and norm(x.value) == "self" and isinstance(x.ctx, ast.Store):
+                                    is_state, what = True, "self." + x.attr
+                    elif isinstance(st, ast.Expr) and isinstance(st.value, ast.Call) and isinstance(st.value.func, ast.Attribute) and norm(st.value.func.value) == "self" \
+                            and st.value.func.attr.startswith(("set_", "initialize", "_setup", "_init_")):
+                        is_state, what = True, norm(st.value.func) + "()"
+                    if not is_state:
+                        continue
+                    for a, pol, src in controlling(m, st):
+                        x = _presence_attr(a)
+                        if x is None or x not in derived:
+                            continue
+                        n += 1
+                        key = (rel, q, x)
+                        ctx.check(key in MEMO_OK, "R6", m, src, q, src.test,
+                                  f"{q}: `{what}` under `{short(a, 40)}` is an accepted continuation mechanism ({MEMO_OK.get(key)})",
+                                  f"{q}: `{short(st, 50)}` only runs depending on whether self.{x} was already set by an earlier run (`{short(a, 50)}`): a reused "
+                                  f"driver object keeps state derived from its previous run (different molecule, temperature, remove_com mode...) instead of recomputing it")
+    if n < 2:
+        raise AnalysisError("memoisation-guard inventory found nothing (anchor drift)")
